@@ -169,7 +169,7 @@ func peerSession(rec *recorder, h *vhandler, sp *peerSpec, c net.Conn, rep *vsup
 	rng := vsup.NewRng(sp.seed ^ 0x5bd1e995)
 	if tc, ok := c.(*net.TCPConn); ok {
 		_ = tc.SetNoDelay(true)
-		if sp.peerRead != "normal" {
+		if sp.peerRead != "normal" && sp.budget == 0 {
 			_ = tc.SetReadBuffer(4096)
 		}
 	}
@@ -535,6 +535,31 @@ func runServerScenario(t *testing.T, rec *recorder, cfg *sysCfg, seed uint64, sc
 			sp.shut, sp.peerRead, sp.consume, sp.reply = "fin", "normal", "all", "frames"
 			sp.closeAt, sp.openOut, sp.wakes = -1, -1, 0
 			sp.asyncW, sp.asyncN, sp.flood = 1+rng.Intn(2), 1100+rng.Intn(300), true
+		}
+		if !cfg.v6zone && i == 1 && cfg.conns >= 4 {
+			// a quiet peer: a small request, then it only reads while the handler answers with big frames -- nothing
+			// but the engine's own re-arming (EPOLLOUT in LT mode, the chunk re-trigger in ET mode) moves the backlog
+			sp := specs[i]
+			sp.total, sp.segs, sp.lockstep = 10, []int{10}, false
+			sp.shut, sp.peerRead, sp.consume, sp.reply = "fin", "normal", "all", "big"
+			sp.closeAt, sp.openOut, sp.wakes, sp.asyncW = -1, -1, 0, 0
+			if cfg.et || rng.Intn(2) == 0 {
+				// ... and it starts reading late, so that a backlog builds up first (more than the socket buffers of
+				// either kind take)
+				sp.peerRead, sp.budget = "stall", 1<<20
+			}
+		}
+		if !cfg.v6zone && i == 2 && cfg.conns >= 4 {
+			// a burst and the end at once: everything the peer has to say and its FIN / close are in the socket
+			// before the loop gets to the first event (OnOpen keeps it busy): all of it must still be delivered
+			sp := specs[i]
+			sp.total = []int{5000, 70000, 3*cfg.readCap + 1}[rng.Intn(3)]
+			sp.segs, sp.lockstep = []int{sp.total}, false
+			sp.shut = []string{"fin", "close"}[rng.Intn(2)]
+			sp.reply, sp.openOut, sp.closeAt, sp.wakes, sp.asyncW, sp.openHold = "none", -1, -1, 0, 0, 5
+			if sp.consume == "dribble" || sp.consume == "record" || sp.consume == "peekonly" {
+				sp.consume = "mixed"
+			}
 		}
 		if cfg.v6zone && i >= len(specs)/2 {
 			// second wave, after the first one has gone: connections reading small fixed-size records that arrive
